@@ -130,6 +130,49 @@ def run(ctx):
     for i, a, obj in insts:
         safe_exercise(obj, cl.keys[i])
         n += 1
+    # instances the *decoder* creates must be value objects too — whatever kind of source they were
+    # read from (an in-memory buffer; a raw stream that hands out a few bytes per read: whatever the
+    # reader assembles from the pieces must end up immutable)
+    import io
+    from kio.serial import entity_reader, entity_writer
+
+    class Dribble(io.RawIOBase):
+        def __init__(self, data, k, kind):
+            self.d, self.p, self.k, self.kind = data, 0, k, kind
+        def readable(self):
+            return True
+        def read(self, n=-1):
+            n = len(self.d) - self.p if n is None or n < 0 else n
+            chunk = self.d[self.p:self.p + (min(n, self.k) if self.k else n)]
+            self.p += len(chunk)
+            return bytearray(chunk) if self.kind == "bytearray" else bytes(chunk)
+
+    ndec = 0
+    for i, a, obj in insts[:: (1 if thorough else 2)]:
+        c = cl.cls(i)
+        try:
+            buf = io.BytesIO(); entity_writer(c)(buf, obj); data = buf.getvalue()
+        except Exception:  # noqa: BLE001 - unencodable sample (size limits): not this property
+            continue
+        # (sources honour the `IO[bytes]` contract: read() returns `bytes`)
+        for label, src in (("BytesIO", io.BytesIO(data)), ("short reads", Dribble(data, 3, "bytes"))):
+            try:
+                dec = entity_reader(c)(src)
+            except Exception:  # noqa: BLE001 - a reader may refuse such a source; then no instance exists
+                continue
+            ndec += 1
+            ops_seen.add("decoded:" + label)
+            if not immutable_value(dec):
+                fails.append({"what": f"an instance decoded from {label} holds a mutable field value",
+                              "class": cl.keys[i]})
+            else:
+                try:
+                    if hash(dec) != hash(obj) and dec == obj:
+                        fails.append({"what": f"an instance decoded from {label} is equal to the original but hashes differently",
+                                      "class": cl.keys[i]})
+                except TypeError as e:
+                    fails.append({"what": f"an instance decoded from {label} is not hashable: {e}", "class": cl.keys[i]})
+    n += ndec
     # the record classes
     from kio.records.schema import NewRecordBatch, Record, RecordBatch, RecordHeader
     for _ in range(20):
